@@ -481,6 +481,14 @@ def run(tier, replay):
     for name, text, stmt, lo, hi in cases[:: 40]:
         t2 = text.replace("A%", "QUX%").replace("B!", "Zed!").replace("S$", "Sx$").replace("X!", "Xray!").replace("X$", "Xray$")
         rtexts.append((text, t2))
+    # names whose type comes from a DEFtype range: every first letter inside the range is the same program up to renaming
+    for df, lo, hi in (("DEFSTR", "A", "Z"), ("DEFINT", "A", "Z"), ("DEFSTR", "A", "M"), ("DEFDBL", "N", "Z"), ("DEFLNG", "B", "Y"), ("DEFSTR", "K", "L"), ("DEFSNG", "Q", "Q")):
+        for body in ('%s = "x"\r\nPRINT %s\r\n', '%s = 5\r\nPRINT %s + 1\r\n', 'DIM %s(3)\r\n%s(1) = "y"\r\n', 'P %s\r\nSUB P (V$)\r\nEND SUB\r\n'):
+            head = "%s %s-%s\r\n" % (df, lo, hi) if lo != hi else "%s %s\r\n" % (df, lo)
+            first = head + body.replace("%s", lo.lower() + "lpha")
+            for o in range(ord(lo), ord(hi) + 1):
+                nm = (chr(o) if o % 2 else chr(o).lower()) + "ulu"
+                rtexts.append((first, head + body.replace("%s", nm)))
     ra = pool.map([{"op": "run", "text": a, "norun": True} for a, b in rtexts], timeout=60)
     rb = pool.map([{"op": "run", "text": b, "norun": True} for a, b in rtexts], timeout=60)
     nren = 0
